@@ -12,11 +12,12 @@ ASSUMPTIONS = [
     '[REAL] obligations: exact real meaning of the floating-point operations; the scaling by scale() = 2^(-614) cancels exactly over the reals; underflow/overflow behaviour and numerical stability are outside the claim',
     'degree and order N = M <= 2 with fully symbolic coefficient vectors; the square-root table holds the exact square roots (symbols r_k with r_k^2 = k); points with p = hypot(x,y) > 0 (off the polar axis) and sin(theta) above the eps clamp',
     'the defining sum: V = sum_{n<=N} sum_{m<=n} (a/r)^(n+1) (C_nm cos(m lam) + S_nm sin(m lam)) P_nm(cos theta) with fully normalised (4 pi) or Schmidt semi-normalised associated Legendre functions, written out explicitly for n <= 2',
-    'gradient = derivative, circle = direct, gravity/magnetic model assembly and file readers are not covered by these obligations; real model files are outside the claim',
+    'MagneticModel assembly obligations: a model object with 3 epochs (+ secular-variation set, with and without a constant set), Schmidt normalisation, arbitrary _t0, _a and _dt0 > 0; the harmonic sums (SphericalEngine::Value / Circle) are opaque and return one fresh vector per coefficient set; the specification is the documented time dependence: linear interpolation between epochs, extrapolation with the secular-variation set after the last epoch, clamping before the first; the symbolic epoch index is split into its 3 values (one path each)',
+    'gradient = derivative, CircularEngine = direct evaluation of the sums, GravityModel, NormalGravity and the file readers are not covered by these obligations; real model files are outside the claim',
 ]
 
 def prepare(ctx):
-    H.ir_module(ctx, W); H.native(ctx, W)
+    H.ir_module(ctx, W); H.native(ctx, W); H.ir_module(ctx, WM)
 
 def legendre(norm, t, u, r3, r5, r15):
     """P[n][m] for n <= 2.  norm 0 = FULL (4 pi), 1 = SCHMIDT"""
@@ -139,6 +140,174 @@ def ob_value(ctx, norm, L, N, nmx1=None, mmx1=None):
     else: res['verdict'] = 'proved'
     return res
 
+# ---- MagneticModel: epoch selection and time interpolation/extrapolation (model assembly), harmonic sums opaque
+WM = 'w_Mag'
+FG = '@_ZNK13GeographicLib13MagneticModel15FieldGeocentricEddddRdS1_S1_S1_S1_S1_'; MCIRC = '@_ZNK13GeographicLib13MagneticModel6CircleEddd'
+def _mag_setup(ctx, nconst):
+    m = H.ir_module(ctx, WM); o = H.offsets(m, 'MagneticModel'); oh = H.offsets(m, 'SphericalHarmonic'); hs = H.sizeof(m, 'SphericalHarmonic')
+    NM = 3                                  # three epochs + the secular-variation set (+ the constant set)
+    cells = {}
+    for off in range(0, H.sizeof(m, 'MagneticModel'), 8): cells[off] = z3.Real('Mag_%d' % off)
+    cells[o['_nNmodels']] = NM; cells[o['_nNconstants']] = nconst
+    nh = NM + 1 + nconst
+    cells[o['_harm']] = rsym.Ptr('harm', 0); cells[o['_harm'] + 8] = rsym.Ptr('harm', hs * nh); cells[o['_harm'] + 16] = rsym.Ptr('harm', hs * nh)
+    harm = {}
+    for e in range(nh):
+        b = e * hs
+        harm.update({b + 0: 2, b + 4: 2, b + 8: 2, b + 16: rsym.Ptr('C%d' % e, 0), b + 24: rsym.Ptr('S%d' % e, 0), b + oh['_a']: z3.Real('ha%d' % e), b + oh['_norm']: 1})
+    return m, o, hs, NM, cells, harm
+
+def _idx_ok(n, NM, t1, dt0):
+    """the selected epoch n is the interval containing t1 (clamped to the first / last epoch)"""
+    cl = []
+    if n > 0: cl.append(t1 >= n * dt0)
+    if n < NM - 1: cl.append(t1 < (n + 1) * dt0)
+    return z3.And(*cl) if cl else z3.BoolVal(True)
+
+def ob_mag_direct(ctx, nconst):
+    m, o, hs, NM, cells, harm = _mag_setup(ctx, nconst)
+    t, X, Y, Z = [z3.Real(n) for n in ('t', 'X', 'Y', 'Z')]
+    t0, dt0, a = cells[o['_t0']], cells[o['_dt0']], cells[o['_a']]
+    def value(ex, a_, mem):     # gradient of the harmonic sum of set e: fresh, deterministic per set
+        e = a_[0].off // hs; mem.setdefault('!sets', []).append(e)
+        for p_, nm in zip(a_[6:9], 'xyz'): ex.store(mem, p_, None, z3.Real('h%d%s' % (e, nm)))
+        return z3.Real('h%dv' % e)
+    ex = rsym.Exec(m, opaque={VAL.replace('ILb0E', 'ILb1E') % (0, 1): value, VAL.replace('ILb0E', 'ILb1E') % (1, 1): value}, assume=[dt0 > 0, t - t0 > -(2 ** 30) * dt0, t - t0 < (2 ** 30) * dt0], path_cap=64); ex.gep_split = NM + 2
+    def mk(ex, mem):
+        ex.new_obj(mem, 'obj', dict(cells)); ex.new_obj(mem, 'harm', dict(harm)); ex.new_obj(mem, 'o')
+        return [rsym.Ptr('obj', 0), t, X, Y, Z] + [rsym.Ptr('o', 8 * i) for i in range(6)]
+    paths = ex.run_all(FG, mk)
+    t1 = t - t0; q = 0; ss = 0.0; bad = None; unk = []; seen = set()
+    for p in paths:
+        sets = p.mem.get('!sets', []); out = p.mem['o']
+        if len(sets) != 2 + nconst: unk.append('harmonic sets evaluated: %r' % sets); continue
+        n = sets[0]; seen.add(n)
+        claims = [('the epoch used is the one whose interval contains t (clamped at both ends)', _idx_ok(n, NM, t1, dt0)), ('the second set is the next one (next epoch, or the secular variation after the last epoch)', z3.BoolVal(sets[1] == n + 1))]
+        if nconst: claims.append(('the constant set is the last one', z3.BoolVal(sets[2] == NM + 1)))
+        for k, ax in enumerate('xyz'):
+            h0, h1 = z3.Real('h%d%s' % (n, ax)), z3.Real('h%d%s' % (n + 1, ax)); c = z3.Real('h%d%s' % (NM + 1, ax)) if nconst else 0
+            rate = (h1 - h0) / dt0 if n + 1 < NM else h1          # linear interpolation between epochs, extrapolation with the secular variation after the last
+            claims.append(('B%s = -a (h_n + (t1 - n dt0) rate + const)' % ax, out[8 * k] == -a * (h0 + (t1 - n * dt0) * rate + c)))
+            claims.append(('dB%s/dt = -a rate' % ax, out[8 * (k + 3)] == -a * rate))
+        for nm, cl in claims:
+            st, model, dt = rsym.prove(cl, list(p.cond), timeout_ms=30000); q += 1; ss += dt
+            if st == 'sat' and bad is None: bad = {'kind': 'mag', 'what': 'FieldGeocentric', 'claim': nm, 'n': n}
+            elif st == 'unknown': unk.append(nm)
+    r = {'queries': q, 'nontrivial': q, 'solver_s': round(ss, 3), 'functions': ['GeographicLib::MagneticModel::FieldGeocentric'], 'bounds': {'epochs': NM, 'constant set': bool(nconst), 'paths': len(paths), 'epochs reached': sorted(seen)}}
+    if bad: r.update({'verdict': 'violated', 'detail': 'MagneticModel::FieldGeocentric: "%s" refuted (epoch %d)' % (bad['claim'], bad['n']), 'cex': bad})
+    elif unk: r.update({'verdict': 'inconclusive', 'detail': 'unknown: %r' % unk[:4]})
+    elif seen != set(range(NM)): r.update({'verdict': 'inconclusive', 'detail': 'not every epoch reached: %r' % sorted(seen)})
+    else: r['verdict'] = 'proved'
+    return r
+
+def ob_mag_circle(ctx, nconst):
+    m, o, hs, NM, cells, harm = _mag_setup(ctx, nconst); oc = H.offsets(m, 'MagneticCircle')
+    t, lat, hh = [z3.Real(n) for n in ('t', 'lat', 'h')]
+    t0, dt0 = cells[o['_t0']], cells[o['_dt0']]
+    from vfw.irparse import NamedT, resolve, StructT, ArrT, PtrT
+    def leaves(t, base=0):
+        rt = resolve(t, m); out = []
+        if isinstance(rt, PtrT): return [base]
+        if isinstance(rt, StructT):
+            for off, e_ in zip(rt.layout(m)[0], rt.els): out += leaves(e_, base + off)
+        elif isinstance(rt, ArrT):
+            for i in range(rt.n): out += leaves(rt.el, base + i * rt.el.size(m))
+        return out
+    CE_PTRS = leaves(NamedT('%"class.GeographicLib::CircularEngine"'))
+    def blank(ex, p_, mem, tag):        # an opaque CircularEngine: a tag in its first word, null heap pointers
+        ex.store(mem, p_, None, tag)
+        for off in CE_PTRS: ex.store(mem, rsym.Ptr(p_.obj, p_.off + off), None, rsym.Ptr(None, 0))
+    def circ(ex, a_, mem):      # CircularEngine Circle(coeff*, f, p, z, a): sret a_[0]; record which coefficient set it was built from
+        e = a_[1].off // hs; mem.setdefault('!sets', []).append(e); blank(ex, a_[0], mem, z3.Real('circ%d' % e)); return None
+    def copyc(ex, a_, mem): blank(ex, a_[0], mem, mem[a_[1].obj].get(a_[1].off, z3.Real('circ_unknown'))); return None
+    def intfwd(ex, a_, mem):
+        for p_, nm in zip(a_[4:7], 'XYZ'): ex.store(mem, p_, None, z3.Real('geo' + nm))
+        for i in range(9): ex.store(mem, rsym.Ptr(a_[7].obj, a_[7].off + 8 * i), None, z3.Real('M%d' % i))
+        return None
+    CIRC = '@_ZN13GeographicLib15SphericalEngine6CircleILb1ELNS0_13normalizationE%dELi1EEENS_14CircularEngineEPKNS0_5coeffEPKdddd'
+    ex = rsym.Exec(m, opaque={CIRC % 0: circ, CIRC % 1: circ, '@_ZN13GeographicLib14CircularEngineC2ERKS0_': copyc, '@_ZN13GeographicLib14CircularEngineD2Ev': lambda ex, a_, mem: None,
+                              '@_ZNK13GeographicLib10Geocentric10IntForwardEdddRdS1_S1_Pd': intfwd, '@_ZdlPv': lambda ex, a_, mem: None, '@_ZN13GeographicLib4Math3NaNIdEET_v': lambda ex, a_, mem: z3.Real('NaN')},
+                    assume=[dt0 > 0, t - t0 > -(2 ** 30) * dt0, t - t0 < (2 ** 30) * dt0], path_cap=64); ex.gep_split = NM + 2
+    def mk(ex, mem):
+        ex.new_obj(mem, 'obj', dict(cells)); ex.new_obj(mem, 'harm', dict(harm)); ex.new_obj(mem, 'mc')
+        return [rsym.Ptr('mc', 0), rsym.Ptr('obj', 0), t, lat, hh]
+    paths = ex.run_all(MCIRC, mk)
+    t1 = t - t0; q = 0; ss = 0.0; bad = None; unk = []; seen = set()
+    for p in paths:
+        sets = p.mem.get('!sets', []); mc = p.mem['mc']
+        if len(sets) != 2 + nconst: unk.append('circles built: %r' % sets); continue
+        n = sets[0]; seen.add(n)
+        interp = mc.get(oc['_interpolate'])
+        claims = [('the epoch used is the one whose interval contains t (clamped at both ends), as in direct evaluation', _idx_ok(n, NM, t1, dt0)),
+                  ('the second circle is built from the next set', z3.BoolVal(sets[1] == n + 1)),
+                  ('time offset within the epoch', mc[oc['_t1']] == t1 - n * dt0), ('epoch spacing', mc[oc['_dt0']] == dt0),
+                  ('interpolate between epochs, extrapolate with the secular variation after the last', z3.BoolVal((interp & 1) == (1 if n + 1 < NM else 0)) if isinstance(interp, int) else (interp == (n + 1 < NM)))]
+        if nconst: claims.append(('the constant circle is built from the last set', z3.BoolVal(sets[2] == NM + 1)))
+        for nm, cl in claims:
+            st, model, dt = rsym.prove(cl, list(p.cond), timeout_ms=30000); q += 1; ss += dt
+            if st == 'sat' and bad is None: bad = {'kind': 'mag', 'what': 'Circle', 'claim': nm, 'n': n}
+            elif st == 'unknown': unk.append(nm)
+    r = {'queries': q, 'nontrivial': q, 'solver_s': round(ss, 3), 'functions': ['GeographicLib::MagneticModel::Circle'], 'bounds': {'epochs': NM, 'constant set': bool(nconst), 'paths': len(paths), 'epochs reached': sorted(seen)}}
+    if bad: r.update({'verdict': 'violated', 'detail': 'MagneticModel::Circle: "%s" refuted (epoch %d)' % (bad['claim'], bad['n']), 'cex': bad})
+    elif unk: r.update({'verdict': 'inconclusive', 'detail': 'unknown: %r' % unk[:4]})
+    elif seen != set(range(NM)): r.update({'verdict': 'inconclusive', 'detail': 'not every epoch reached: %r' % sorted(seen)})
+    else: r['verdict'] = 'proved'
+    return r
+
+def ob_mag_timeindex(ctx):
+    """the float -> int conversion of the epoch number is in range for EVERY time (no undefined behaviour for huge times)"""
+    res = {'queries': 0, 'nontrivial': 0, 'solver_s': 0.0, 'functions': ['GeographicLib::MagneticModel::FieldGeocentric', 'GeographicLib::MagneticModel::Circle'], 'bounds': {'t': 'all reals (NaN and infinities are replayed concretely only)', 'epochs': 3}}
+    bad = None; unk = []; nob = 0
+    for what in ('FieldGeocentric', 'Circle'):
+        m, o, hs, NM, cells, harm = _mag_setup(ctx, 0)
+        t = z3.Real('t'); t0, dt0 = cells[o['_t0']], cells[o['_dt0']]
+        obl = []
+        class _Stop(Exception): pass
+        def stop(ex, a_, mem): obl.extend(ex.cur.oblig); raise rsym.Cut()
+        CIRC = '@_ZN13GeographicLib15SphericalEngine6CircleILb1ELNS0_13normalizationE%dELi1EEENS_14CircularEngineEPKNS0_5coeffEPKdddd'
+        opq = {VAL.replace('ILb0E', 'ILb1E') % (0, 1): stop, VAL.replace('ILb0E', 'ILb1E') % (1, 1): stop, CIRC % 0: stop, CIRC % 1: stop,
+               '@_ZNK13GeographicLib10Geocentric10IntForwardEdddRdS1_S1_Pd': lambda ex, a_, mem: ([ex.store(mem, p_, None, z3.Real('g')) for p_ in a_[4:7]], [ex.store(mem, rsym.Ptr(a_[7].obj, a_[7].off + 8 * i), None, z3.Real('M%d' % i)) for i in range(9)], None)[2], '@_ZN13GeographicLib4Math3NaNIdEET_v': lambda ex, a_, mem: z3.Real('NaN')}
+        ex = rsym.Exec(m, opaque=opq, assume=[dt0 > 0], path_cap=64); ex.gep_split = NM + 2
+        if what == 'FieldGeocentric':
+            mk = lambda ex, mem: [ex.new_obj(mem, 'obj', dict(cells)), t] + [z3.Real(n) for n in 'XYZ'] + [rsym.Ptr(ex.new_obj(mem, 'o').obj, 8 * i) for i in range(6)] if not ex.new_obj(mem, 'harm', dict(harm)) is None else None
+            ex.run_all(FG, mk)
+        else:
+            def mk2(ex, mem): ex.new_obj(mem, 'obj', dict(cells)); ex.new_obj(mem, 'harm', dict(harm)); ex.new_obj(mem, 'mc'); return [rsym.Ptr('mc', 0), rsym.Ptr('obj', 0), t, z3.Real('lat'), z3.Real('h')]
+            ex.run_all(MCIRC, mk2)
+        seen = set()
+        for nm, claim, cond in obl:
+            key = (nm, claim.sexpr() if hasattr(claim, 'sexpr') else str(claim))
+            if key in seen or 'float->int' not in nm: continue
+            seen.add(key); nob += 1
+            st, model, dt = rsym.prove(claim, cond, timeout_ms=30000); res['queries'] += 1; res['solver_s'] += dt
+            if st == 'sat' and bad is None:
+                tv = rsym.model_value(model, t); bad = {'kind': 'magtime', 'what': what, 'claim': nm, 't': str(tv), 't0': str(rsym.model_value(model, t0)), 'dt0': str(rsym.model_value(model, dt0))}
+            elif st == 'unknown': unk.append(nm)
+    res['nontrivial'] = res['queries']; res['solver_s'] = round(res['solver_s'], 3); res['bounds']['conversions checked'] = nob
+    if bad: res.update({'verdict': 'violated', 'detail': 'MagneticModel::%s: %s is not implied by the path condition: the epoch number floor((t - t0)/dt0) is converted to int before it is clamped (undefined behaviour for |t| large), e.g. (t - t0)/dt0 with t = %s, t0 = %s, dt0 = %s' % (bad['what'], bad['claim'], bad['t'], bad['t0'], bad['dt0']), 'cex': bad})
+    elif unk: res.update({'verdict': 'inconclusive', 'detail': 'unknown: %r' % unk[:3]})
+    elif nob == 0: res.update({'verdict': 'inconclusive', 'detail': 'no float->int conversion was reached'})
+    else: res['verdict'] = 'proved'
+    return res
+
+def replay_magtime(cex):
+    """real code under UBSan (float-cast-overflow): the synthetic model evaluated at t = 1e300, -1e300, inf, nan"""
+    import subprocess, tempfile, shutil, os
+    from vfw import build
+    sc = build.scratch(); lib = build.full_lib_so(sanitize=True)
+    src = os.path.join(sc, 'magtime_main.cpp'); exe = os.path.join(sc, 'magtime')
+    open(src, 'w').write('#include <cstdio>\n#include <cstdlib>\n#include <cmath>\nextern "C" double vf_mag_time(const char*, double);\nint main(int c, char** v) { double t = std::strtod(v[2], 0); double r = vf_mag_time(v[1], t); std::printf("t=%g r=%g\\n", t, r); return 0; }\n')
+    r = subprocess.run(['g++', '-std=c++14', '-O1', '-g', '-w', '-fno-access-control', '-DNDEBUG'] + build.SAN + build.incflags() + [src, build.wrapper(WM), lib, '-Wl,-rpath,' + os.path.dirname(lib), '-o', exe], capture_output=True, text=True)
+    if r.returncode: return None, 'replay program did not build: ' + r.stderr[-800:]
+    msgs = []
+    for tv in ('1e300', '-1e300', 'inf', 'nan'):
+        d = tempfile.mkdtemp(prefix='vfmag-')
+        try: p = subprocess.run([exe, d, tv], capture_output=True, text=True, timeout=120, env=dict(os.environ, ASAN_OPTIONS='detect_leaks=0', UBSAN_OPTIONS='print_stacktrace=0'))
+        finally: shutil.rmtree(d, ignore_errors=True)
+        err = [l.strip() for l in p.stderr.split('\n') if 'runtime error' in l]
+        if err: msgs.append('t = %s: %s' % (tv, err[0][-220:]))
+    return bool(msgs), 'MagneticModel evaluated on the real code under UBSan: ' + ('; '.join(msgs) if msgs else 'no runtime error at t = 1e300, -1e300, inf, nan')
+
 def obligations(ctx):
     obs = []
     for norm in (0, 1):
@@ -146,6 +315,10 @@ def obligations(ctx):
         obs.append(Ob('Q1.Value.%s.L1.N2' % nn, (lambda ctx, norm=norm: ob_value(ctx, norm, 1, 2)), '[REAL]', 'E2 rsym+z3', 'SphericalEngine::Value<%s, 1 set> equals the defining double sum for degree/order 2 with symbolic coefficients' % nn, timeout=600, bounds={'N': 2}))
         obs.append(Ob('Q1.Value.%s.L2.N2.trunc' % nn, (lambda ctx, norm=norm: ob_value(ctx, norm, 2, 2, 1, 1)), '[REAL]', 'E2 rsym+z3',
                       'SphericalEngine::Value<%s, 2 sets>: the secondary coefficient set truncated to degree/order 1 contributes exactly its terms up to that degree (C and S), scaled by f[1]' % nn, timeout=600, bounds={'N': 2, 'secondary': 'nmx = mmx = 1'}))
+    for nc in (0, 1):
+        obs.append(Ob('Q2.MagneticModel.FieldGeocentric.const%d' % nc, (lambda ctx, nc=nc: ob_mag_direct(ctx, nc)), '[REAL]', 'E2 rsym+z3', 'MagneticModel::FieldGeocentric: epoch selection, linear interpolation between epochs, extrapolation with the secular-variation set, constant term, factor -a', timeout=600, bounds={'epochs': 3}))
+        obs.append(Ob('Q3.MagneticModel.Circle.const%d' % nc, (lambda ctx, nc=nc: ob_mag_circle(ctx, nc)), '[REAL]', 'E2 rsym+z3', 'MagneticModel::Circle builds its circles from the same epoch sets, time offset and interpolation flag as direct evaluation', timeout=600, bounds={'epochs': 3}))
+    obs.append(Ob('Q4.MagneticModel.time-index-conversion', ob_mag_timeindex, '[REAL] + range obligations', 'E2 rsym+z3', 'MagneticModel::FieldGeocentric and Circle: the conversion of the epoch number to int is in range for every time t (no undefined behaviour)', timeout=600))
     return obs
 
 def native_value(ctx, norm, L, N, nm1, mm1, vals):
@@ -156,9 +329,21 @@ def native_value(ctx, norm, L, N, nm1, mm1, vals):
     x = rv * math.sin(th) * math.cos(lam); y = rv * math.sin(th) * math.sin(lam); z = rv * math.cos(th)
     return f(norm, L, N, nm1, mm1, arr(Cv[0]), arr(Sv[0]), arr(Cv[-1]), arr(Sv[-1]), f1v, x, y, z, av)
 
+def replay_mag(cex):
+    """real code: a synthetic 3-epoch degree-1 model written to a scratch directory, direct evaluation and Circle against the field implied by the coefficients"""
+    import ctypes
+    lib = H.native({}, WM); f = lib.vf_mag_check; f.restype = ctypes.c_double; f.argtypes = [ctypes.c_char_p]
+    import tempfile, shutil
+    d = tempfile.mkdtemp(prefix='vfmag-')
+    try: dev = f(d.encode())
+    finally: shutil.rmtree(d, ignore_errors=True)
+    return dev > 1e-6, 'MagneticModel (synthetic 3-epoch model, times before, between and after the epochs): largest deviation of direct evaluation / Circle from the field implied by the coefficients: %.3g nT' % dev
+
 def replay(rp):
     """fresh native build of the current tree; the real SphericalEngine::Value at the counterexample point against the defining sum"""
     cex = rp['cex']
+    if cex.get('kind') == 'mag': return replay_mag(cex)
+    if cex.get('kind') == 'magtime': return replay_magtime(cex)
     nv = native_value({}, cex['norm'], cex['L'], cex['N'], cex['nmx1'], cex['mmx1'], cex['vals'])
     bad = not H.close(nv, cex['spec'], rel=1e-9, abs_=1e-9)
     return bad, 'SphericalEngine::Value (norm=%d, L=%d, N=%d, secondary truncated to %d/%d) returns %.15g, the defining sum gives %.15g' % (cex['norm'], cex['L'], cex['N'], cex['nmx1'], cex['mmx1'], nv, cex['spec'])
@@ -167,6 +352,7 @@ MANIFEST = {
     'engine': 'E2',
     'technique': 'symbolic execution of clang IR (Clenshaw double recursion) over z3 reals with algebraic constraints for square roots and unit vectors; polynomial identity with the explicit defining sum at degree 2',
     'text': 'Bounded solver verdicts on the real code: SphericalEngine::Value (value only) for both normalisations, one coefficient set and two sets with a truncated secondary set, equals the defining spherical-harmonic double sum for degree and order 2 with fully symbolic coefficients; '
-            'this exercises the packed-triangle indexing, the Cv/Sv truncation tests and the scaling.',
-    'note': 'Degree/order 2 only; gradients, circles, model assembly and file readers not covered; exact-real semantics. Trusted: clang-14, vfw/irparse+rsym (validated against the native build at sampled points each run), z3.',
+            'this exercises the packed-triangle indexing, the Cv/Sv truncation tests and the scaling. MagneticModel::FieldGeocentric and Circle select the epoch containing t, interpolate/extrapolate in time as documented, '
+            'use the same sets for circles as for direct evaluation, and convert the epoch number to int only after clamping (no UB for any t).',
+    'note': 'Harmonic sums at degree/order 2 only; gradients, CircularEngine sums, gravity models and file readers not covered; exact-real semantics. Trusted: clang-14, vfw/irparse+rsym (validated against the native build at sampled points each run), z3.',
 }
